@@ -499,6 +499,38 @@ fn execute(p: &Prepared, ops: &[Op], stats: Option<&mut RunStats>) -> Option<Fin
                         }
                     }
                 }
+                (Obs::Conflicts(Ok(v)), Op::Explain(nt, _)) => {
+                    // every reported pair consists of FIRST_k(production).FOLLOW_k(lhs) sets that
+                    // really intersect; and pairs are reported iff some pair intersects
+                    let nt = *nt % p.nts.len();
+                    let prods: Vec<usize> = p.rg.prods.iter().enumerate().filter(|(_, (l, _))| *l == nt).map(|(i, _)| i).collect();
+                    let fp = p.rg.first_of_productions(k, &p.ref_first[k]);
+                    let want = |pi: usize| reference::concat_k(&fp[pi], &p.ref_follow[k][nt], k);
+                    local.definition_checks += 1;
+                    for (a, ta, b, tb) in v {
+                        if !prods.contains(a) || !prods.contains(b) || set_of(ta) != want(*a) || set_of(tb) != want(*b) {
+                            finding = Some(Finding { class: "conflicts-differ-from-definition".into(), step, detail: format!("explain_conflicts({}, {k}) reports productions {a}/{b} with tuple sets that are not FIRST_k.FOLLOW_k of these productions", p.nts[nt]) });
+                            break;
+                        }
+                        if set_of(ta).intersection(&set_of(tb)).next().is_none() {
+                            finding = Some(Finding { class: "conflicts-differ-from-definition".into(), step, detail: format!("explain_conflicts({}, {k}) reports the disjoint pair {a}/{b}", p.nts[nt]) });
+                            break;
+                        }
+                    }
+                    if finding.is_none() && prods.len() > 1 {
+                        let mut any = false;
+                        for i in &prods {
+                            for j in &prods {
+                                if i != j && want(*i).intersection(&want(*j)).next().is_some() {
+                                    any = true;
+                                }
+                            }
+                        }
+                        if any == v.is_empty() {
+                            finding = Some(Finding { class: "conflicts-differ-from-definition".into(), step, detail: format!("explain_conflicts({}, {k}) reports {} pairs, the definition says conflicts exist: {any}", p.nts[nt], v.len()) });
+                        }
+                    }
+                }
                 (Obs::Tuples(Ok(m)), Op::KTuples(max_k)) => {
                     // FIRST_k(production) . FOLLOW_k(lhs) at the minimal deciding k of the lhs
                     let mut ok = true;
